@@ -20,3 +20,13 @@ class TransportBounded(NativeBounded):
 
 
 BOUNDED.append(TransportBounded())
+
+
+class ReplyValidationBounded(NativeBounded):
+    property_ids = ["C13"]
+    module = "contracts.faults_native"
+    func = "bounded_reply_validation"
+    what = "mosaik.scenario.World.run with one API-violating simulator reply per run (whole run, debug mode off and on)"
+
+
+BOUNDED.append(ReplyValidationBounded())
